@@ -52,7 +52,7 @@ def install(eng):
     def opt_and_then(e, st, fr, f, a, m):
         o, clo = a; sd = 0 if o.tag == 'Result' else 1
         return BE(st, o, lambda s: e.call_closure(s, fr, clo, [o.items[0]]), lambda s: one(s, o if o.tag == 'Result' else NONE()), sd)
-    M(r'^std::(option::Option|result::Result)::<.*>::and_then', opt_and_then)
+    M(r'^std::(option::Option|result::Result)::<.*>::and_then$', opt_and_then)
     def opt_unwrap_or_else(e, st, fr, f, a, m):
         o, clo = a; sd = 0 if o.tag == 'Result' else 1
         return BE(st, o, lambda s: one(s, o.items[0]), lambda s: e.call_closure(s, fr, clo, [o.items[0]] if o.tag == 'Result' else []), sd)
@@ -65,7 +65,7 @@ def install(eng):
     def res_map(e, st, fr, f, a, m):
         o, clo = a
         return BE(st, o, lambda s: [(s2, Ok(v)) for s2, v in e.call_closure(s, fr, clo, [o.items[0]])], lambda s: one(s, o), 0)
-    M(r'^std::result::Result::<.*>::map::', res_map)
+    M(r'^std::result::Result::<.*>::map$', res_map)
     def res_map_err(e, st, fr, f, a, m):
         o, clo = a
         return BE(st, o, lambda s: one(s, o), lambda s: [(s2, Err(v)) for s2, v in e.call_closure(s, fr, clo, [o.items[0]])], 0)
@@ -186,5 +186,105 @@ def install(eng):
             e.add_obligation('panic', st.pcz(), 'slice index out of range', st.frames[fr].body.name); return []
         return one(st, e.tmp_ref(st, 0, VecV.dense(items[lo:hi])))
     M(r'^<(std::vec::Vec<.*>|\[.*\]) as std::ops::Index<std::ops::Range(From|To)?<usize>>>::index$', vec_index_range)
+    def array_map(e, st, fr, f, a, m):
+        arr, clo = a; cur = [(st, [])]
+        for x in arr.items:
+            nxt = []
+            for s0, acc in cur:
+                for s1, v in e.call_closure(s0, fr, clo, [x]): nxt.append((s1, acc + [v]))
+            cur = nxt
+        return [(s0, Agg(acc)) for s0, acc in cur]
+    M(r'^std::array::<impl \[.*\]>::map$|^std::array::map$', array_map)
+    def opt_or_else(e, st, fr, f, a, m):
+        o, clo = a
+        return BE(st, o, lambda s: one(s, o), lambda s: e.call_closure(s, fr, clo, []))
+    M(r'^std::option::Option::<.*>::or_else', opt_or_else)
+    def arr_try_from_vec(e, st, fr, f, a, m):
+        mm = re.match(r'^<\[.*; (\d+)\] as std::convert::TryFrom<std::vec::Vec<.*>>>::try_from$', f)
+        v = a[0]
+        if not mm or not isinstance(v, VecV): return NotImplemented
+        if not v.is_dense(): raise Inconclusive('array from a guarded Vec')
+        return one(st, Ok(Agg(list(v.items))) if len(v.items) == int(mm.group(1)) else Err(v))
+    M(r'^<\[.*\] as std::convert::TryFrom<std::vec::Vec<.*>>>::try_from$', arr_try_from_vec)
+    def successors(e, st, fr, f, a, m):
+        cur, clo = a; out = []
+        for _ in range(64):
+            if isz(cur.disc): raise Inconclusive('successors over a symbolic option')
+            if cur.disc != 1: return one(st, IterV(out, 'val'))
+            x = cur.items[0]; out.append((True, x))
+            st, cur = e.call1(st, fr, clo, [e.tmp_ref(st, fr, x)])
+        raise Inconclusive('successors: more than 64 elements')
+    M(r'^std::iter::successors', successors)
+    def flat_map(e, st, fr, f, a, m):
+        it, clo = need_iter(a[0]), a[1]; out = []
+        for g, x in dense(it).ents:
+            st, v = e.call1(st, fr, clo, [x])
+            if isinstance(v, IterV): out += list(v.ents)
+            elif isinstance(v, VecV): out += list(v.ents)
+            elif hasattr(v, 'items'): out += [(True, y) for y in v.items]
+            else: raise Inconclusive('flat_map over ' + type(v).__name__)
+        return one(st, IterV(out, 'val'))
+    M(r'^<.* as std::iter::Iterator>::flat_map', flat_map)
+    def is_some_and(e, st, fr, f, a, m):
+        o, clo = a
+        def some(s):
+            return [(s2, v) for s2, v in e.call_closure(s, fr, clo, [o.items[0]])]
+        return BE(st, o, some, lambda s: one(s, f.split('::<')[0].endswith('is_none_or') or 'is_none_or' in f))
+    M(r'^std::option::Option::<.*>::(is_some_and|is_none_or)$', is_some_and)
+    def opt_map_or_else(e, st, fr, f, a, m):
+        o, dflt, clo = a; sd = 0 if o.tag == 'Result' else 1
+        return BE(st, o, lambda s: e.call_closure(s, fr, clo, [o.items[0]]), lambda s: e.call_closure(s, fr, dflt, [o.items[0]] if o.tag == 'Result' else []), sd)
+    M(r'^std::(option::Option|result::Result)::<.*>::map_or_else$', opt_map_or_else)
+    def res_map_or(e, st, fr, f, a, m):
+        o, dflt, clo = a
+        return BE(st, o, lambda s: e.call_closure(s, fr, clo, [o.items[0]]), lambda s: one(s, dflt), 0)
+    M(r'^std::result::Result::<.*>::map_or$', res_map_or)
+    def total_cmp(e, st, fr, f, a, m):
+        x, y = D(st, a[0]), D(st, a[1])
+        if (isz(x.nan) or x.nan) or (isz(y.nan) or y.nan): raise Inconclusive('total_cmp of a possibly-NaN value')
+        lt = e.binop('Lt', x, y); gt = e.binop('Gt', x, y)
+        if not isz(lt) and not isz(gt): return one(st, Enum(-1 if lt else (1 if gt else 0), [], 'Ordering'))
+        return one(st, Enum(z3.If(zb(lt), -1, z3.If(zb(gt), 1, 0)), [], 'Ordering'))
+    M(r'core::f64::<impl f64>::total_cmp$', total_cmp)
+    def mem_take(e, st, fr, f, a, m):
+        old_ = D(st, a[0])
+        if isinstance(old_, VecV): new_ = VecV([])
+        elif isinstance(old_, Enum) and old_.tag == 'Option': new_ = NONE()
+        elif isinstance(old_, F): new_ = fconst(0)
+        elif isinstance(old_, int) and not isinstance(old_, bool): new_ = 0
+        else: return NotImplemented
+        e.write_ref(st, a[0], new_); return one(st, old_)
+    M(r'^std::mem::take$|^std::option::Option::<.*>::take$', mem_take)
+    def mem_replace(e, st, fr, f, a, m):
+        old_ = D(st, a[0]); e.write_ref(st, a[0], a[1]); return one(st, old_)
+    M(r'^std::mem::replace$', mem_replace)
+    def nth(e, st, fr, f, a, m):
+        r = a[0]; it = dense(need_iter(D(st, r) if isinstance(r, RefV) else r)); n = conc(a[1], 'index')
+        if isinstance(r, RefV): e.write_ref(st, r, IterV(list(it.ents[n + 1:]), it.kind))
+        return one(st, Some(it.ents[n][1]) if n < len(it.ents) else NONE())
+    M(r'^<.* as std::iter::Iterator>::nth$', nth)
+    def contains(e, st, fr, f, a, m):
+        v = D(st, a[0]); x = D(st, a[1]); acc = False
+        ents = v.ents if isinstance(v, VecV) else [(True, y) for y in v.items]
+        for g, y in ents:
+            if isinstance(x, F): eq = e.binop('Eq', y, x)
+            elif isz(x) or isz(y): eq = zi(x) == zi(y)
+            elif isinstance(x, (int, bool)): eq = (x == y)
+            else: return NotImplemented
+            acc = b_or(acc, b_and(g, eq))
+        return one(st, acc)
+    M(r'core::slice::<impl \[.*\]>::contains$|^std::vec::Vec::<.*>::contains$', contains)
+    M(r'^std::iter::once', lambda e, st, fr, f, a, m: one(st, IterV([(True, a[0])], 'val')))
+    def then_some(e, st, fr, f, a, m):
+        b, v = a
+        if not isz(b): return one(st, Some(v) if b else NONE())
+        return one(st, Enum(z3.If(zb(b), 1, 0), [v], 'Option'))
+    M(r'core::bool::<impl bool>::then_some$', then_some)
+    def then(e, st, fr, f, a, m):
+        b, clo = a
+        if not isz(b): return [(s2, Some(v)) for s2, v in e.call_closure(st, fr, clo, [])] if b else one(st, NONE())
+        s1 = st.clone(); s1.assume(zb(b)); s2 = st.clone(); s2.assume(z3.Not(zb(b)))
+        return [(s3, Some(v)) for s3, v in e.call_closure(s1, fr, clo, [])] + [(s2, NONE())]
+    M(r'core::bool::<impl bool>::then$', then)
     M(r'^std::time::Instant::now$', lambda e, st, fr, f, a, m: one(st, Opaque('instant')))
     M(r'^std::time::Instant::elapsed$', lambda e, st, fr, f, a, m: one(st, Opaque('duration')))
